@@ -143,6 +143,8 @@ class Battery(object):
         ctx = self.ctx
         self.nobs += 1
         ctx.stat("observations")
+        if "c09" in self.checks and ctx.tape.choose(4) == 0:
+            self.faulted_prior(root)
         with warnings.catch_warnings(record=True) as wl:
             warnings.simplefilter("always")
             st = stackscope.extract(root)
@@ -191,6 +193,38 @@ class Battery(object):
                 if not gen_running(g):
                     self.c16_outermost(W, g, None)
         return st
+
+    def faulted_prior(self, root):
+        """C09 history step: an earlier extraction of the same root in which the k-th fill_context (the step
+        that describes a context, an exit-stack entry included) raised. The fault is contained by extract
+        (C05's business); what C09 needs is that the NEXT, fault-free extraction still unfolds the exact tree:
+        nothing about a stack or manager may stay marked 'in progress' after the failed pass."""
+        import stackscope
+        from stackscope import _extract
+
+        ctx = self.ctx
+        real = _extract.fill_context
+        k = ctx.tape.choose(8)
+        n = [0]
+
+        def faulty(c):
+            n[0] += 1
+            if n[0] - 1 == k:
+                ctx.stat("c09_prior_fault_fired")
+                raise RuntimeError("vsim: injected fault in fill_context #%d" % k)
+            return real(c)
+
+        _extract.fill_context = faulty
+        try:
+            with warnings.catch_warnings():
+                warnings.simplefilter("ignore")
+                try:
+                    stackscope.extract(root)
+                except Exception:
+                    ctx.stat("c09_prior_fault_escaped")
+        finally:
+            _extract.fill_context = real
+        ctx.log("prior_fault", k, n[0])
 
     def c16_outermost(self, W, x, st):
         """extract_outermost(x) equals extract(x).frames[0]; raises iff there are no frames."""
